@@ -205,7 +205,7 @@ Proof. split; reflexivity. Qed.
 (* the generated programs and Heap.v on the example: root-case remove_child with suppression
    (removes leaf 4, then splices the children of internal node 1 into the root), collapse, invert *)
 Example exg_runs :
-  Node_remove_child HG 0 5 true exg_heap = lift 5 (remove_child 0 5 true exg_heap) /\
+  Node_remove_child HG 10 0 5 true exg_heap = lift 5 (remove_child 0 5 true exg_heap) /\
   (exists h', remove_child 0 5 true exg_heap = HOk h' /\ kids h' 0 = [2; 3; 4] /\ elen h' 4 = Some 3072) /\
   Edge_collapse HG 1 true exg_heap = lift tt (edge_collapse 1 true exg_heap) /\
   (exists h', edge_collapse 1 true exg_heap = HOk h' /\ kids h' 0 = [2; 3; 4; 5] /\ elen h' 2 = Some 1536 /\ elen h' 3 = Some 1024) /\
